@@ -17,7 +17,8 @@ inductive Cmd where
   | sub (path : Bytes) (f : Option Filt)
   | unsub (path : Bytes)
   | paramSelf | paramMax (n : Nat) | paramRoute (keys : List Bytes)
-  | unparamMax | unparamRoute
+  | paramRouteF (keys : List Bytes) (fs : List (Option Filt))
+  | unparamMax | unparamRoute | unparamRouteF
   | getparams
   | ins (key before : Bytes) (vals : List Nat)
   | reorder (key before : Bytes)
@@ -45,6 +46,17 @@ def keyName : Bytes := "!SnKy".toUTF8.toList
 def selfName : Bytes := "!Self".toUTF8.toList
 def maxName : Bytes := "!MxUp".toUTF8.toList
 
+def filtName : Bytes := "!SnFl".toUTF8.toList
+
+/-- `PathMatcher::PutPathsFromMessage(PR_NAME_KEYS, PR_NAME_FILTERS, …, "*/*")`: the i-th key gets the i-th item of the filter
+    field; when the field has no i-th item the previous filter "bleeds down" -/
+def buildRouteAux : List Bytes → List (Option Filt) → Option Filt → PM → PM
+  | [], _, _, pm => pm
+  | k :: ks, [], cur, pm => buildRouteAux ks [] cur (pmPutFrom pm k cur (some defaultPrefix))
+  | k :: ks, f :: fs, _, pm => buildRouteAux ks fs f (pmPutFrom pm k f (some defaultPrefix))
+
+def buildRoute (keys : List Bytes) (fs : Option (List (Option Filt))) : PM := buildRouteAux keys (fs.getD []) none []
+
 def addParam (s : Sess) (n : Bytes) : Sess := { s with params := if s.params.contains n then s.params else s.params ++ [n] }
 
 /-- one command of session `sid` (inside or outside a batch): `MessageReceivedFromGateway` -/
@@ -56,17 +68,22 @@ def runCmd (sv : Server) (sid : Nat) : Cmd → Server
   | .paramSelf => sv.updSess sid (fun s => addParam { s with reflectSelf := true } selfName)
   | .paramMax n => sv.updSess sid (fun s => addParam { s with maxItems := n } maxName)
   | .paramRoute keys => sv.updSess sid (fun s =>
-      addParam { s with hasRouteKeys := true, route := pmOfKeys (keys.map (fun k => (k, none))) (some defaultPrefix) } keyName)
+      -- the keys replace the old ones; a PR_NAME_FILTERS parameter set earlier stays and is paired with the new keys
+      addParam { s with hasRouteKeys := true, routeKeys := keys, route := buildRoute keys s.routeFilts } keyName)
+  | .paramRouteF keys fs => sv.updSess sid (fun s =>
+      addParam (addParam { s with hasRouteKeys := true, routeKeys := keys, routeFilts := some fs, route := buildRoute keys (some fs) } keyName) filtName)
   | .unparamMax => sv.updSess sid (fun s =>
       if s.params.contains maxName then { s with maxItems := sv.maxItemsDefault, params := s.params.filter (· ≠ maxName) } else s)
   | .unparamRoute => sv.updSess sid (fun s =>
-      if s.params.contains keyName then { s with hasRouteKeys := false, route := [], params := s.params.filter (· ≠ keyName) } else s)
+      if s.params.contains keyName then { s with hasRouteKeys := false, routeKeys := [], route := [], params := s.params.filter (· ≠ keyName) } else s)
+  | .unparamRouteF => sv.updSess sid (fun s =>
+      if s.params.contains filtName then { s with routeFilts := none, route := buildRoute s.routeKeys none, params := s.params.filter (· ≠ filtName) } else s)
   | .getparams =>
     match sv.sess? sid with
     | none => sv
     | some s =>
       let visible := s.params.filter (fun n =>
-        !(n.length > 1 && n.head? = some 33) || n = keyName || n = selfName || n = maxName)
+        !(n.length > 1 && n.head? = some 33) || n = keyName || n = filtName || n = selfName || n = maxName)
       let names := (visible.map hexS).mergeSort (fun a b => a ≤ b)
       sv.deliver sid ("PARAMS" ++ String.join (names.map (" " ++ ·)))
   | .ins key before vals => insertOrdered sv sid key before vals
@@ -113,6 +130,15 @@ def parseCmd : List String → Option Cmd
   | ["param", _, "self"] => some .paramSelf
   | ["param", _, "maxitems", n] => do let n ← nat? n; pure (.paramMax n)
   | "param" :: _ :: "route" :: ks => do let ks ← parseKeys ks; if ks.isEmpty then none else pure (.paramRoute ks)
+  | "param" :: _ :: "routef" :: kfs => do
+      -- param <slot> routef <key> <filter> [<key> <filter> ...]
+      let rec pairs : List String → Option (List (Bytes × Option Filt))
+        | [] => some []
+        | k :: f :: r => do let k ← bytesOfTok k; let f ← parseFilter f; let r ← pairs r; pure ((k, f) :: r)
+        | _ => none
+      let ps ← pairs kfs
+      if ps.isEmpty then none else pure (.paramRouteF (ps.map (·.1)) (ps.map (·.2)))
+  | ["unparam", _, "routef"] => some .unparamRouteF
   | ["unparam", _, "maxitems"] => some .unparamMax
   | ["unparam", _, "route"] => some .unparamRoute
   | ["getparams", _] => some .getparams
